@@ -90,10 +90,25 @@ func c17Judge(c *mon.Ctx, aText, bText string, m V1Set) {
 	c.Input("metadata", m.Name)
 	c.Feature("md:" + m.Name)
 	a, b := ref.MustJSON(aText), ref.MustJSON(bText)
-	d := ReadJ1(aText).Diff(ReadJ1(bText), m.MD()...)
+	mkB := func() lib.JsonNode { return ReadJ1(bText) }
+	if len(m.Keys) == 0 && c.R.Chance(0.1) {
+		// b as the in-memory result of a (list-mode) Patch instead of a fresh parse
+		other := ref.ToJSON(gen.Perturb(c.R, gen.PTiny, b))
+		var P lib.JsonNode
+		var err error
+		if pan := mon.Safe(func() { P, err = ReadJ1(other).Patch(ReadJ1(other).Diff(ReadJ1(bText))) }); pan == "" && err == nil && P != nil && ref.Eq(Plain1(P), b, ref.List) {
+			mkB = func() lib.JsonNode {
+				Q, _ := ReadJ1(other).Patch(ReadJ1(other).Diff(ReadJ1(bText)))
+				return Q
+			}
+			c.Input("b_built_by", "lib Patch (not re-parsed)")
+			c.Feature("b_is_patch_result")
+		}
+	}
+	d := ReadJ1(aText).Diff(mkB(), m.MD()...)
 	text := d.Render()
 	extra := map[string]any{"diff": text}
-	eq := ReadJ1(aText).Equals(ReadJ1(bText), m.MD()...)
+	eq := ReadJ1(aText).Equals(mkB(), m.MD()...)
 	want := v1Oracle(a, b, m)
 	if len(d) > 0 {
 		c.Nontrivial(joinKey(aText, bText, m.Name))
@@ -182,7 +197,7 @@ func init() {
 		Rule: "v1 (package lib) cases are (a, b, metadata) over {none, SET, MULTISET, SET+Setkeys(id), MERGE (null-free), SET+MERGE, MULTISET+MERGE, SetPrecision(0.1)}: random structured pairs with arrays growing, shrinking and changing in place, equal-under-reading pairs, keyed member pairs, " +
 			"every array pair over {1,2,3} up to length 4 at three positions; verdict: diff empty <=> lib Equals <=> independent oracle; Patch of the in-memory diff and of the rendered+re-read diff gives b (lib Equals and reference canon); plus the -v2=false binary pipeline; " +
 			"non-trivial = non-empty diff; distinct = distinct (a, b, metadata)",
-		Floors: map[string]int{"round_trips_ok": 50000, "diff_empty": 5000, "hunks>=2": 10000, "root_array_grows": 3000, "root_array_shrinks": 3000, "root_array_same_length": 3000, "cli_v1_pipelines": 200},
+		Floors: map[string]int{"round_trips_ok": 50000, "diff_empty": 5000, "hunks>=2": 10000, "root_array_grows": 3000, "root_array_shrinks": 3000, "root_array_same_length": 3000, "cli_v1_pipelines": 200, "b_is_patch_result": 3000},
 		Assumptions: []string{
 			"v1 needs SET next to Setkeys for keyed sets (dispatch looks at SET / MULTISET only)",
 			"MERGE inputs are null-free; Setkeys inputs satisfy the key precondition with scalar key values",
